@@ -2,11 +2,13 @@
 # Builds the extracted model and the OCaml drivers. model.ml / wire.ml are written by coq/Extract.v.
 set -e
 cd "$(dirname "$0")"
-for d in driver sdriver kdriver; do
+for d in driver kdriver; do
   if [ ! -x $d ] || [ model.ml -nt $d ] || [ $d.ml -nt $d ]; then
     ocamlfind ocamlopt -O2 -w -a -package str model.mli model.ml $d.ml -o $d 2>/dev/null || ocamlfind ocamlopt -w -a -package str model.mli model.ml $d.ml -o $d
   fi
 done
-if [ ! -x wdriver ] || [ wire.ml -nt wdriver ] || [ wdriver.ml -nt wdriver ]; then
-  ocamlfind ocamlopt -w -a -package str wire.mli wire.ml wdriver.ml -o wdriver
-fi
+for d in wdriver mdriver adriver; do
+  if [ -f $d.ml ] && { [ ! -x $d ] || [ wire.ml -nt $d ] || [ $d.ml -nt $d ]; }; then
+    ocamlfind ocamlopt -w -a -package str wire.mli wire.ml $d.ml -o $d
+  fi
+done
